@@ -426,3 +426,19 @@ package txmgr
 //@   loop#1 step bsameExceptI(B(tx, s.bucketMeta.nsUnminedInputs), relPrevKey(rec, iter_))
 //@   loop#1 step len(bvalI(B(tx, s.bucketMeta.nsUnminedInputs), relPrevKey(rec, iter_))) == old(len(bvalI(B(tx, s.bucketMeta.nsUnminedInputs), relPrevKey(rec, iter_)))) + 32
 //@   ensures miWFI(B(tx, s.bucketMeta.nsUnminedInputs))
+
+// mempool view of the node: a pure observer of the outpoint
+//@ func TxMemPool.CheckPoolOutPointSpend
+//@   pure
+//@   requires op != nil
+//@   ensures result == ghostb("poolSpent", recv, strOf(op.Hash), op.Index)
+
+// ---------------------------------------------------------------------------------------------
+// L4 (C01) / V1-V2 (C17): classification of a coin at query time.
+//@ func (*UtxoStore).ScriptAddressBalance
+//@   props C01 C17 C19
+//@   requires s != nil && s.bucketMeta != nil && s.ksmgr != nil && tx != nil && txpool != nil
+//@   modifies gmap("iterkey")
+//@   loop#1 invariant ret != nil && fresh(ret) && (forall qs_ string :: has(ret, qs_) ==> ret[qs_] != nil && fresh(ret[qs_]) && validAmt(ret[qs_].Total) && validAmt(ret[qs_].Spendable) && validAmt(ret[qs_].WithdrawableStaking) && validAmt(ret[qs_].WithdrawableBinding))
+//@   loop#2 invariant ret != nil && fresh(ret) && (forall qs_ string :: has(ret, qs_) ==> ret[qs_] != nil && fresh(ret[qs_]) && validAmt(ret[qs_].Total) && validAmt(ret[qs_].Spendable) && validAmt(ret[qs_].WithdrawableStaking) && validAmt(ret[qs_].WithdrawableBinding))
+//@   loop#2 invariant cred != nil && fresh(cred) && cred.block != nil && fresh(cred.block) && nsUnspent != nil && nsCredits != nil && iter != nil
